@@ -55,8 +55,8 @@ def parseBool (t : String) : Option Bool :=
   if t == "1" then some true else if t == "0" then some false else none
 
 def parseMode (t : String) : Option Mode :=
-  if t == "b" then some .blocking
-  else if t == "n" then some .nonblocking
+  if t == "b" || t == "bb" then some .blocking
+  else if t == "n" || t == "n0" || t == "nb" then some .nonblocking
   else if t.startsWith "t" then (t.drop 1).toNat?.map Mode.timed
   else none
 
